@@ -27,7 +27,7 @@ S = Suite(
     bound="vertical grids nz 6..33 (closure MOST/CONSTANT and hand-built anisotropic / constant "
           "columns), level selections: ascending, descending, unsorted, with the surface node, with "
           "the top node, one-element, full column (forward and reversed); level argument as python "
-          "int, numpy integer, 0-d array, list, int64 array; grids 6..16 x 6..12, halo 0 / None / "
+          "int, numpy integer, list, int64 array; grids 6..16 x 6..12, halo 0 / None / "
           "incommensurate, truncated and clamped modes; footprint and dispersion, numeric and "
           "analytic, single and double precision; distinct in-range levels only; a sample",
     rule="slice k of the multi-level result equals the single-level result for levels[k] within "
@@ -231,12 +231,12 @@ def full_column(nx, ny, dx, dy, halo, modes, footprint, analytic, precision, im,
 @S.kind("scalar-forms")
 def scalar_forms(nx, ny, dx, dy, halo, modes, footprint, analytic, precision, im, jm, prof, seed,
                  bg, level):
-    """A scalar level (python int, numpy integer, 0-d array) behaves as the one-element list and
+    """A scalar level (python int, numpy integer) behaves as the one-element list and
     the one-element array: 2-D fields, Z == z[level] everywhere."""
     cx = _Ctx(nx, ny, dx, dy, halo, modes, footprint, analytic, precision, im, jm, prof, seed, bg)
     ref = None
     worst = 0.0
-    for form in ("int", "npint", "array0d", "list", "array"):
+    for form in ("int", "npint", "list", "array"):
         try:
             X, Y, Z, C, F = cx.solve(level_arg([level], form))
         except Exception as e:
